@@ -336,6 +336,59 @@ def known_set_accumulation(ctx, chk, rule):
             chk.ok(rule, DIRECT, f'`{k}`: {len(accs)} accumulation site(s) in the paging loop', detail='initialised once, only accumulated inside loops')
 
 
+def fresh_stream_handover(ctx, chk, rule, qualnames=('container:Container.add_object', 'container:Container.add_objects_to_pack')):
+    """The bytes-level entry points wrap the caller's bytes in io.BytesIO and hand the stream over untouched: positioned at 0, never read, written,
+    moved or truncated before the writer sees it (a stream handed over at another position stores a suffix of the content under that suffix's key)."""
+    prog = ctx.prog
+    MOVERS = {'seek', 'read', 'readline', 'readlines', 'write', 'truncate', 'close', 'readinto', 'getbuffer', 'detach', 'read1'}
+    for q in qualnames:
+        chk.require(prog.has_fn(q), f'{q} not found')
+        f = prog.fn(q)
+        content = next((p_ for p_ in f.params if p_ != 'self'), None)
+        makers = [n for n in walk_local(f.node) if isinstance(n, ast.Call) and norm(n.func).split('.')[-1] == 'BytesIO']
+        chk.require(makers, f'{q}: no io.BytesIO(...) found')
+        streams = set()
+        bad = None
+        for mk in makers:
+            # argument: the content parameter itself, or the target of a comprehension/loop over it
+            a = mk.args[0] if len(mk.args) == 1 and not mk.keywords else None
+            src_ok = False
+            if isinstance(a, ast.Name):
+                if a.id == content:
+                    src_ok = True
+                else:
+                    for c in walk_local(f.node):
+                        if isinstance(c, ast.comprehension) and isinstance(c.target, ast.Name) and c.target.id == a.id and norm(c.iter) == content and not c.ifs:
+                            src_ok = True
+                        if isinstance(c, ast.For) and isinstance(c.target, ast.Name) and c.target.id == a.id and norm(c.iter) == content:
+                            src_ok = True
+            if not src_ok:
+                bad = bad or (mk, f'`{norm(mk)}` is not a stream over exactly the bytes the caller passed (one element of `{content}` each)')
+            st = mk
+            while not isinstance(st, ast.stmt):
+                st = st._parent
+            if isinstance(st, (ast.Assign, ast.AnnAssign)):
+                for t in (st.targets if isinstance(st, ast.Assign) else [st.target]):
+                    if isinstance(t, ast.Name):
+                        streams.add(t.id)
+        # aliases: loop / comprehension targets iterating over a stream list
+        for c in walk_local(f.node):
+            if isinstance(c, (ast.comprehension, ast.For)) and isinstance(c.target, ast.Name) and isinstance(c.iter, ast.Name) and c.iter.id in streams:
+                streams.add(c.target.id)
+        for n in walk_local(f.node):
+            if isinstance(n, ast.Attribute) and n.attr in MOVERS:
+                base = n.value
+                while isinstance(base, ast.Subscript):
+                    base = base.value
+                if (isinstance(base, ast.Name) and base.id in streams) or (isinstance(base, ast.Call) and norm(base.func).split('.')[-1] == 'BytesIO'):
+                    bad = bad or (n, f'`{norm(n)}` touches the stream over the caller\'s bytes before it is handed to the writer: the writer reads from the current position, so only part of the '
+                                  'content (or nothing) is stored, under the key of that part')
+        if bad:
+            chk.bad(rule, q, norm(bad[0])[:90], bad[1], where=f'{f.module.relpath}:{bad[0].lineno}')
+        else:
+            chk.ok(rule, q, f'{len(makers)} io.BytesIO site(s)', detail='built from the caller\'s bytes, handed over untouched (position 0)')
+
+
 def loose_add_delegation(ctx, chk, R1):
     """Container.add_object has no path of its own: every path returns what add_streamed_object returns for a stream over exactly the given
     content (so every loose write goes through the one writer that verifies, repairs and publishes)."""
@@ -439,6 +492,7 @@ def run(ctx, host=None):
                             'of the empty string then stands for the existing copy -- an empty object is taken as "already stored and intact" although no file is there', where=f'{vf.module.relpath}:{h.lineno}')
     publish_handlers(ctx, chk, R1)
     loose_add_delegation(ctx, chk, R1)
+    fresh_stream_handover(ctx, chk, R1)
     # destination name is a function of the key only
     ex = prog.fn('utils:ObjectWriter.__exit__')
     bad_names = []
